@@ -72,6 +72,17 @@ CLAIMS = {
              "catastrophic (pattern, length) pairs x 8 regex-consuming APIs through eval end with a value or JSError.",
         technique="symbolic execution of the regex parser/compiler/VM with symbolic pattern text and symbolic budgets (CrossHair/z3)",
         design_ref="DESIGN.md section 4 (C10)"),
+    "C17": dict(
+        text="One step from an arbitrary dense array (complete over call histories because the state is the element "
+             "list): every implemented Array method runs on the real implementation with the receiver's length, kind "
+             "pattern and integer payloads as solver variables, position arguments from an adversarial grid, callbacks "
+             "as host recorders returning solver-chosen results (and mutating the receiver on a solver-chosen call); "
+             "result, receiver afterwards, callback log and array identity (fresh vs receiver) must equal the "
+             "transcription of ECMA-262 23.1.3. sort under 10 comparators (stability, undefined last, fractional and NaN "
+             "results), the documented stricter index/length assignment rules, and element conversion of the integer "
+             "typed arrays for EVERY double.",
+        technique="differential symbolic execution of the array built-ins vs a spec transcription (CrossHair/z3)",
+        design_ref="DESIGN.md section 4 (C17)"),
     "C20": dict(
         text="lastIndex protocol as ONE step from an arbitrary state: for each (pattern, flag set) the script-level "
              "RegExp object gets a solver-chosen lastIndex (integers, negatives, fractions, NaN, infinities, strings, "
